@@ -41,9 +41,10 @@ const (
 	lPushPull
 	lDetach
 	lRemove
+	lAttachStale // Attach re-using the client's previous Document instance of that key (documented as unsupported: must be refused)
 )
 
-var c11Names = []string{"Activate", "Deactivate", "Attach", "PushPull", "Detach", "Remove"}
+var c11Names = []string{"Activate", "Deactivate", "Attach", "PushPull", "Detach", "Remove", "AttachStaleInstance"}
 
 // c11Letter is one call: Op by client C on document D (D ignored for
 // Activate/Deactivate).
@@ -62,7 +63,7 @@ func c11Alphabet() []c11Letter {
 	for c := 0; c < 2; c++ {
 		a = append(a, c11Letter{lActivate, c, 0}, c11Letter{lDeactivate, c, 0})
 		for d := 0; d < 2; d++ {
-			for op := lAttach; op <= lRemove; op++ {
+			for op := lAttach; op <= lAttachStale; op++ {
 				a = append(a, c11Letter{op, c, d})
 			}
 		}
@@ -122,7 +123,11 @@ type c11World struct {
 	hist  []string
 	ev    map[string]int
 	val   int
+	// smallThreshold: the project answers pulls of >=2 changes with snapshots
+	smallThreshold bool
 }
+
+var debugC11 = false
 
 const c11FakeID = "000000000000000000000001"
 
@@ -143,7 +148,12 @@ func (w *c11World) head(docID string) int64 {
 	return di.ServerSeq
 }
 
-func (w *c11World) proj() *types.Project { return w.s.Project(1000, 1000, "c11") }
+func (w *c11World) proj() *types.Project {
+	if w.smallThreshold {
+		return w.s.Project(2, 2, "c11s")
+	}
+	return w.s.Project(1000, 1000, "c11")
+}
 
 // rows returns the number of stored rows with operations of the document.
 func (w *c11World) opRows(docID string) int {
@@ -250,6 +260,20 @@ func (w *c11World) step(l c11Letter) *prog.Failure {
 		return nil
 	}
 
+	if l.Op == lAttachStale {
+		if a.doc == nil || !s.activated || (a.status != "detached" && a.status != "attached") || a.gen.removed {
+			l.Op = lAttach // nothing to re-use (or not the interesting state): a plain attach
+		} else {
+			// re-use the instance that was attached before: never allowed
+			_ = a.doc.Update(func(r *yjson.Object, p *presence.Presence) error { p.Initialize(nil); return nil })
+			pack, _ := converter.ToChangePack(a.doc.CreateChangePack())
+			_, err := w.cli.AttachDocument(w.ctx, connect.NewRequest(&api.AttachDocumentRequest{ClientId: w.clientID(s), ChangePack: pack}))
+			w.s.WaitIdle()
+			w.logf("%v -> err=%v", l, short(err))
+			w.ev["stale_instance_attach"]++
+			return reject(err, fmt.Sprintf("it re-uses a Document instance that is %q for this client", a.status))
+		}
+	}
 	switch l.Op {
 	case lAttach:
 		d := document.New(k)
@@ -272,6 +296,9 @@ func (w *c11World) step(l c11Letter) *prog.Failure {
 		rp, err := converter.FromChangePack(res.Msg.ChangePack)
 		if err != nil {
 			return c11fail("HARNESS", "decode: %v", err)
+		}
+		if debugC11 {
+			fmt.Printf("attach resp: snapshot=%d changes=%d vv=%s cp=%s\n", len(rp.Snapshot), len(rp.Changes), rp.VersionVector.Marshal(), rp.Checkpoint.String())
 		}
 		if err := d.ApplyChangePack(rp); err != nil {
 			return c11fail("ATTACH-APPLY", "%v: response does not apply: %v", l, err)
@@ -432,15 +459,23 @@ func (w *c11World) finish() *prog.Failure {
 		s := holders[0]
 		a := s.att[d]
 		// create garbage, then sync three times: with no other attached client the
-		// minimum version vector is this client's own, so everything is collected
-		_ = a.doc.Update(func(r *yjson.Object, p *presence.Presence) error {
+		// minimum version vector is this client's own, so everything this probe
+		// creates is collected. (Garbage that was there before is not asserted:
+		// see known finding F23, tombstones of actors missing from a snapshot's
+		// version vector are never collectable.)
+		g0 := a.doc.GarbageLen()
+		if err := a.doc.Update(func(r *yjson.Object, p *presence.Presence) error {
 			r.SetInteger("g", 1)
 			return nil
-		})
-		_ = a.doc.Update(func(r *yjson.Object, p *presence.Presence) error {
+		}); err != nil {
+			return c11fail("PROBE-EDIT-FAILED", "local edit on the attached replica failed: %v", err)
+		}
+		if err := a.doc.Update(func(r *yjson.Object, p *presence.Presence) error {
 			r.Delete("g")
 			return nil
-		})
+		}); err != nil {
+			return c11fail("PROBE-EDIT-FAILED", "local edit on the attached replica failed: %v", err)
+		}
 		for i := 0; i < 3; i++ {
 			pack, _ := converter.ToChangePack(a.doc.CreateChangePack())
 			r, err := w.cli.PushPullChanges(w.ctx, connect.NewRequest(&api.PushPullChangesRequest{ClientId: s.id, DocumentId: a.gen.id, ChangePack: pack}))
@@ -448,13 +483,23 @@ func (w *c11World) finish() *prog.Failure {
 				return c11fail("PROBE-SYNC-FAILED", "GC probe sync of the only attached client failed: %v", err)
 			}
 			rp, _ := converter.FromChangePack(r.Msg.ChangePack)
+			if debugC11 {
+				fmt.Printf("probe %d: resp vv=%s snapshot=%d doc vv=%s actor=%s\n", i, rp.VersionVector.Marshal(), len(rp.Snapshot), a.doc.VersionVector().Marshal(), a.doc.ActorID().String())
+			}
 			if err := a.doc.ApplyChangePack(rp); err != nil {
 				return c11fail("PROBE-APPLY-FAILED", "%v", err)
 			}
 			w.s.WaitIdle()
 		}
-		if g := a.doc.GarbageLen(); g != 0 {
-			return c11fail("GC-HELD-BACK", "the only attached client of d%d still has %d uncollected tombstones after 3 syncs: a detached/deactivated client holds back the minimum version vector", d, g)
+		if g := a.doc.GarbageLen(); g != 0 && debugC11 {
+			infos, _ := w.s.DB.Database.FindChangeInfosBetweenServerSeqs(w.ctx, types.DocRefKey{ProjectID: w.proj().ID, DocID: types.ID(a.gen.id)}, 1, 1<<60)
+			for _, ci := range infos {
+				fmt.Printf("row %d actor=%s cseq=%d lamport=%d vv=%s ops=%d pres=%v\n", ci.ServerSeq, ci.ActorID, ci.ClientSeq, ci.Lamport, ci.VersionVector.Marshal(), len(ci.Operations), ci.PresenceChange != nil)
+			}
+			fmt.Println("doc:", a.doc.Marshal())
+		}
+		if g := a.doc.GarbageLen(); g > g0 {
+			return c11fail("GC-HELD-BACK", "the only attached client of d%d cannot collect the tombstone it just created (garbage %d -> %d after 3 syncs): a detached/deactivated client holds back the minimum version vector", d, g0, g)
 		}
 		w.ev["gc_probe"]++
 	}
@@ -464,6 +509,9 @@ func (w *c11World) finish() *prog.Failure {
 func runC11(word []c11Letter) (fail *prog.Failure, hist []string, ev map[string]int) {
 	s := world.Get()
 	w := &c11World{s: s, ctx: context.Background(), ev: map[string]int{}}
+	// words longer than the enumerated bound run in a snapshot-threshold-2
+	// project so that lagging clients are answered with snapshots
+	w.smallThreshold = len(word) > 5
 	proj := w.proj()
 	w.cli = v1connect.NewYorkieServiceClient(http.DefaultClient, "http://"+s.Addr,
 		connect.WithInterceptors(client.NewAuthInterceptor(proj.PublicKey, "")))
@@ -610,10 +658,15 @@ func TestC11Random(t *testing.T) {
 		if rapid.Bool().Draw(rt, "second") {
 			word = append(word, c11Letter{lActivate, 1, 0})
 		}
+		if rapid.Bool().Draw(rt, "shared") {
+			// scenario prefix: both clients attached to the same document
+			word = []c11Letter{{lActivate, 0, 0}, {lActivate, 1, 0}, {lAttach, 0, 0}, {lAttach, 1, 0}}
+			n += 3
+		}
 		for len(word) < n {
 			l := alpha[rapid.IntRange(0, len(alpha)-1).Draw(rt, "l")]
 			if l.Op == lDeactivate && rapid.IntRange(0, 2).Draw(rt, "keep") > 0 {
-				l = c11Letter{lAttach + rapid.IntRange(0, 3).Draw(rt, "op"), l.C, rapid.IntRange(0, 1).Draw(rt, "d")}
+				l = c11Letter{lAttach + rapid.IntRange(0, 4).Draw(rt, "op"), l.C, rapid.IntRange(0, 1).Draw(rt, "d")}
 			}
 			word = append(word, l)
 		}
